@@ -270,18 +270,18 @@ func decodeProp(prop string) *Prop {
 			Run: func(c *Ctx) { decodeMixed(c, prop, 3) },
 		},
 		{
-			// a long history of tiny files whose three zone-offset texts are all different and all
-			// new: whatever the library keeps per text or per offset across calls must not make a
-			// later call allocate beyond its bound (the allocation invariant is monitored across the
-			// whole history of a worker, not only per input)
-			Name: "zonehistory", Phase: 1, Weight: 1,
+			// one run = one process history: from process-start state, up to 150 000 (thorough:
+			// 450 000) tiny files whose three zone-offset texts are new at every call; whatever the
+			// library keeps per text or per offset across calls must not make a later call exceed
+			// its bound (each call of the history is judged on its own)
+			Name: "zonehistory", Phase: 1, Weight: 2,
 			N: func(tier string, seed uint64) uint64 {
 				if tier == "thorough" {
-					return 3000000
+					return 4000
 				}
-				return 320000
+				return 64
 			},
-			Run: func(c *Ctx) { decodeMixed(c, prop, 5) },
+			Run: func(c *Ctx) { zoneHistoryRun(c, prop) },
 		},
 		{
 			// one token far longer than any look-ahead window (an XMP value or padding run of
@@ -503,19 +503,7 @@ func decodeMixed(c *Ctx, prop string, class int) {
 	var e *harness.Entry
 	hi := 0
 	random := class == 1
-	if class == 5 {
-		rec := &gengen.Record{ModifyDate: &gengen.DateTime{Y: 2020, Mo: 1, D: 2, H: 3, Mi: 4, S: 5}}
-		rec.DateOrig, rec.DateDig = rec.ModifyDate, rec.ModifyDate
-		f := gen.Sub()
-		txt := func() *string {
-			t := string([]byte{"+-"[f.Intn(2)], 0x21 + byte(f.Intn(94)), 0x21 + byte(f.Intn(94)), ':', 0x21 + byte(f.Intn(94)), 0x21 + byte(f.Intn(94))})
-			return &t
-		}
-		rec.Offset, rec.OffsetOrig, rec.OffsetDig = txt(), txt(), txt()
-		data = gengen.TIFFFile(gen, gengen.BuildTIFF(gen, rec, gengen.LayoutOpts{Canonical: true}).Encode(gen.Bool()).Bytes, false)
-		name, e = "gen:TIFF(zone texts)", harness.EntryByName([]string{"Decode", "DecodeTiff", "exif2.Parse"}[gen.Intn(3)])
-		hi = len(data)
-	} else if class == 4 {
+	if class == 4 {
 		n := 70000 + gen.Intn(630000)
 		val := strings.Repeat("A", n)
 		var pkt string
@@ -629,4 +617,150 @@ func decodeMixed(c *Ctx, prop string, class int) {
 	}
 	decodeOracle(c, prop, e, res, r, held, true)
 	c.Descf("result err=%s", res.Err)
+}
+
+// zoneText writes the i-th zone text of a history in the given style. Every style produces
+// texts of the shape the Exif standard gives OffsetTime ("+hh:mm"); what varies is how far the
+// four "digits" stray from '0'..'9' - bytes a real file does not contain but any file may.
+func zoneText(dst []byte, style int, seed uint64, i uint64) {
+	r := core.NewSplitMix(seed ^ (i+1)*0x9e3779b97f4a7c15)
+	dst[0] = "+-"[i&1]
+	dst[3] = ':'
+	k := i >> 1
+	switch style {
+	case 0: // real-world zones: -12:00 .. +14:00 in quarter hours
+		h, q := r.Intn(15), r.Intn(4)
+		dst[1], dst[2], dst[4], dst[5] = '0'+byte(h/10), '0'+byte(h%10), '0'+byte(q*15/10), '0'+byte(q*15%10)
+	case 1: // every text another offset: 60*h+m enumerated, h written with "digits" up to 0xff
+		h, m := k/60, k%60
+		if h > 2277 {
+			h = 2277 - (h % 2278)
+		}
+		ha := h / 10
+		if ha > 207 {
+			ha = 207
+		}
+		dst[1], dst[2], dst[4], dst[5] = '0'+byte(ha), '0'+byte(h-10*ha), '0'+byte(m/10), '0'+byte(m%10)
+	case 2: // every text another name, all of them offset zero (bytes below '0' are skipped)
+		dst[1], dst[2], dst[4], dst[5] = 0x10+byte(k>>15&31), 0x10+byte(k>>10&31), 0x10+byte(k>>5&31), 0x10+byte(k&31)
+	case 3: // random printable and high bytes
+		for _, j := range []int{1, 2, 4, 5} {
+			dst[j] = 0x21 + byte(r.Intn(0xff-0x21+1))
+		}
+	default: // random digits: 10^4 texts, most of them no real zone
+		for _, j := range []int{1, 2, 4, 5} {
+			dst[j] = '0' + byte(r.Intn(10))
+		}
+	}
+}
+
+var zoneHistoryLens = []int{600, 3000, 12000, 40000, 75000, 110000, 150000}
+
+// zoneHistoryRun is one history: Pristine(), then K decodes of a tiny TIFF whose three zone
+// texts change at every call. C01 and C02 judge every call as usual. For C14 the first pass
+// charges every call with the cheap allocation counter to find candidates (more than a quarter
+// of the bound); the verdict comes from a second pass that rebuilds the same history from
+// process-start state and measures the candidate calls exactly (runtime.MemStats).
+func zoneHistoryRun(c *Ctx, prop string) {
+	gen := c.L("gen")
+	style := gen.Intn(5)
+	lens := zoneHistoryLens
+	K := lens[gen.Intn(len(lens))]
+	if c.Tier == "thorough" && gen.Chance(1, 4) {
+		K *= 3
+	}
+	K -= gen.Intn(K/8 + 1)
+	seed := gen.U64()
+	e := harness.EntryByName([]string{"Decode", "DecodeTiff", "exif2.Parse"}[gen.Intn(3)])
+	rec := &gengen.Record{ModifyDate: &gengen.DateTime{Y: 2020, Mo: 1, D: 2, H: 3, Mi: 4, S: 5}}
+	rec.DateOrig, rec.DateDig = rec.ModifyDate, rec.ModifyDate
+	marks := []string{"+AA:AA", "+BB:BB", "+CC:CC"}
+	rec.Offset, rec.OffsetOrig, rec.OffsetDig = &marks[0], &marks[1], &marks[2]
+	tmpl := gengen.TIFFFile(gen, gengen.BuildTIFF(gen, rec, gengen.LayoutOpts{Canonical: true}).Encode(gen.Bool()).Bytes, false)
+	var at [3]int
+	for j, m := range marks {
+		at[j] = strings.Index(string(tmpl), m)
+		if at[j] < 0 {
+			panic("verif: zone text marker not found in the generated file")
+		}
+	}
+	env := drawEnv(c, e, prop)
+	c.Descf("history of %d calls of %s, zone text style %d, text seed %#x, file length %d, reader=%s", K, e.Name, style, seed, len(tmpl), harness.RKNames[env.RK])
+	if c.PlanOnly {
+		c.PlanEntry = e.Name
+		return
+	}
+	file := func(i int) []byte {
+		d := append([]byte(nil), tmpl...)
+		for j := 0; j < 3; j++ {
+			zoneText(d[at[j]:at[j]+6], style, seed, uint64(i)*3+uint64(j))
+		}
+		return d
+	}
+	call := func(i int) (*harness.Result, *world.SimReader, int) {
+		d := file(i)
+		c.Dev.Budget = c.Dev.Seq + tickBudget(len(d))
+		r := newReader(c.Dev, d, Fault{}, Delivery{})
+		return harness.Invoke(e, env, r), r, len(d)
+	}
+	bound := uint64(allocConst) + 16*uint64(len(tmpl))
+	harness.Pristine()
+	harness.AllocScreen = true
+	var cands []int
+	var screenMax uint64
+	for i := 0; i < K && c.Viol == nil; i++ {
+		res, r, n := call(i)
+		if i == 0 || i == K-1 {
+			c.D.Str(res.Canon())
+		}
+		c.D.Int(int(r.Delivered))
+		switch prop {
+		case "C14":
+			if res.Panic != nil {
+				c.Inc("probe:panic-seen-(C01's subject)")
+			}
+			if harness.AllocDelta > screenMax {
+				screenMax = harness.AllocDelta
+			}
+			if harness.AllocDelta > bound/4 && len(cands) < 6 {
+				cands = append(cands, i)
+			}
+		default:
+			decodeOracle(c, prop, e, res, r, n, true)
+		}
+	}
+	harness.AllocScreen = false
+	c.St.C["history:calls"] += int64(K)
+	c.Inc(fmt.Sprintf("history:style-%d", style))
+	c.Inc("entry:" + e.Name)
+	c.NonTrivial = true
+	if prop != "C14" {
+		return
+	}
+	if zc := harness.ZoneCacheLen(); zc >= 1000 {
+		c.Inc("probe:zone-cache>=1000-entries")
+	}
+	if len(cands) > 0 {
+		c.Inc("history:exact-second-pass")
+		harness.Pristine()
+		ci := 0
+		for i := 0; i <= cands[len(cands)-1]; i++ {
+			exact := i == cands[ci]
+			harness.MeasureAlloc = exact
+			res, _, n := call(i)
+			_ = res
+			if exact {
+				ci++
+				b := uint64(allocConst) + 16*uint64(n)
+				c.Descf("call %d measured exactly: %d bytes", i, harness.AllocDelta)
+				if harness.AllocDelta > b {
+					harness.MeasureAlloc = true
+					c.Fail("alloc", e.Name, "history/"+allocSite(harness.AllocDelta), fmt.Sprintf("call %d of a history of %d-byte files that differ only in their three zone-offset texts (style %d) allocated %d bytes (bound %d); the calls before it stayed within the bound", i, n, style, harness.AllocDelta, b))
+					return
+				}
+			}
+		}
+		harness.MeasureAlloc = true
+	}
+	c.Descf("largest allocation charged to one call by the screen: %d bytes; %d candidate calls", screenMax, len(cands))
 }
